@@ -113,4 +113,10 @@ def exec (norm : String → String) (ops : List Op) (c : Chain) : Chain :=
 /-- ASCII upper-casing, the executable stand-in for `to_uppercase` (names in runs are ASCII). -/
 def asciiUpper (s : String) : String := String.ofList (s.toList.map Char.toUpper)
 
+/-- upper-casing of ASCII and of the Latin-1 letters whose upper case is one character of Latin-1 (à…þ without ÷): the
+    executable stand-in for `to_uppercase` on the non-ASCII names of the C18 runs (ß, ÿ, µ are not used there). -/
+def latinUpperChar (c : Char) : Char :=
+  if 0xE0 ≤ c.toNat ∧ c.toNat ≤ 0xFE ∧ c.toNat ≠ 0xF7 then Char.ofNat (c.toNat - 0x20) else c.toUpper
+def latinUpper (s : String) : String := String.ofList (s.toList.map latinUpperChar)
+
 end Gold.Sym
